@@ -85,6 +85,41 @@ def gen_sweeps(r, tier):
     return ops
 
 
+def gen_shuffle(r, tier):
+    """one sensor whose temperature is visited in RANDOM order (big jumps up and down, returns to earlier values): a curve's
+    value is a function of the smoothed temperature, so over the whole case hotter must never mean slower - whatever was
+    evaluated in between (seed C07e: a stateful outlier filter inside the curve)"""
+    ops = []
+    for _ in range(40 if tier == "quick" else 1500):
+        ops += ["#case shuffle", "cv.reset"]
+        allc = []
+        lo_all, hi_all = 200, -200
+        for i in range(r.range(1, 3)):
+            if r.chance(0.5):
+                mn = r.range(-10, 70)
+                mx = mn + r.range(5, 50)
+                ops.append(f"cv.add id=L{i} kind=linear sensor=s0 min={mn} max={mx} steps=nil")
+                lo, hi = mn, mx
+            else:
+                ks = sorted(set(r.range(10, 95) for _ in range(r.range(2, 7))))
+                vals = sorted(float(r.range(0, 255)) for _ in ks)
+                ops.append(f"cv.add id=L{i} kind=linear sensor=s0 min=0 max=0 steps={streams.float_map_tok(dict(zip(ks, vals)))}")
+                lo, hi = ks[0], ks[-1]
+            lo_all, hi_all = min(lo_all, lo), max(hi_all, hi)
+            allc.append(f"L{i}")
+        for i in range(r.pick([0, 1, 1, 2])):
+            ms = [r.pick(allc) for _ in range(r.range(1, 3))]
+            ops.append(f"cv.add id=F{i} kind=function type={r.pick(MONO_TYPES)} members={','.join(ms)}")
+            allc.append(f"F{i}")
+        temps = [r.range((lo_all - 5) * 1000, (hi_all + 5) * 1000) for _ in range(r.range(15, 40))]
+        temps += [r.pick(temps) + r.range(-3000, 3000) for _ in range(10)]
+        for t in r.shuffle(temps):
+            ops.append(f"cv.sensor id=s0 avg={fx(float(t))} val={fx(float(t))}")
+            for c in allc:
+                ops.append(f"cv.eval id={c} now=1000")
+    return ops
+
+
 def gen_sweeps_focus(r, tier):
     """search-only: one function curve over two or three linear leaves with staggered ranges (one member still off while
     another is well up), one sensor each or shared, fine grids around every leaf's lower end"""
@@ -151,7 +186,7 @@ class C07(Prop):
             "direct loop and non-decreasing PWM maps. non-trivial = distinct (curve shapes, function types, grid length bucket)")
     assumptions = ["step speeds that are not binary32-representable fall into the recorded known finding C07-float32-hop "
                    "(the float32 cast in the interpolation can lift a value over x.5 just below a knot)"]
-    streams = [Stream("sweep", gen_sweeps, parallel=8), Stream("request", gen_requests, parallel=8)]
+    streams = [Stream("sweep", gen_sweeps, parallel=8), Stream("shuffle", gen_shuffle, parallel=8), Stream("request", gen_requests, parallel=8)]
 
     def search_streams(self):
         return [(self.streams[0], gen_sweeps_focus)]
@@ -170,6 +205,24 @@ class C07(Prop):
                         out.append(viol(f"a higher curve value lowered the request/written PWM: ({last_t},{last_w}) -> ({t},{w})", cops, cgo, upto=i))
                         break
                     last_t, last_w = t, w
+                continue
+            if name == "shuffle":
+                seen, temp, bad = {}, None, False
+                for i, (op, g) in enumerate(zip(cops, cgo)):
+                    if op.startswith("cv.sensor"):
+                        temp = bits2f(int(kv(op)["avg"][1:], 16))
+                    elif op.startswith("cv.eval") and g.startswith("i") and temp is not None:
+                        cid = kv(op)["id"]
+                        v = int(g.split()[0][1:])
+                        for (t2, v2) in seen.get(cid, []):
+                            if (t2 < temp and v2 > v) or (t2 > temp and v2 < v) or (t2 == temp and v2 != v):
+                                out.append(viol(f"curve {cid}: {v2} at {t2 / 1000} degrees but {v} at {temp / 1000} degrees (evaluated in this order "
+                                                "within one run): hotter means slower", cops, cgo, upto=i))
+                                bad = True
+                                break
+                        if bad:
+                            break
+                        seen.setdefault(cid, []).append((temp, v))
                 continue
             last = {}
             rep32 = True
